@@ -12,8 +12,8 @@ import (
 )
 
 // small name alphabets for the longer lists
-var listAlphabetQuick = []string{"urlDecode", "htmlEntityDecode", "lowercase", "removeWhitespace", "hexDecode", "none"}
-var listAlphabetThorough = []string{"urlDecode", "htmlEntityDecode", "lowercase", "removeWhitespace", "hexDecode", "none", "length", "cmdLine"}
+var listAlphabetQuick = []string{"urlDecode", "htmlEntityDecode", "lowercase", "uppercase", "removeWhitespace", "hexDecode", "none"}
+var listAlphabetThorough = []string{"urlDecode", "htmlEntityDecode", "lowercase", "uppercase", "removeWhitespace", "hexDecode", "none", "length", "cmdLine"}
 
 // tokens the rule inputs are made of: single and double URL encodings of an
 // entity, an entity whose expansion has the length of its source, hex text,
